@@ -51,6 +51,9 @@ func newBufferPool(size int) *bufferPool {
 
 // Get retrieves a buffer from the pool.
 func (bp *bufferPool) Get() []byte {
+	if verifHooks {
+		return verifPoolGet(bp)
+	}
 	return bp.xmitBuf.Get().([]byte)
 }
 
@@ -59,6 +62,9 @@ func (bp *bufferPool) Put(buf []byte) error {
 	// Only put back buffers of the correct size.
 	if cap(buf) != mtuLimit {
 		return errBufferSizeMismatch
+	}
+	if verifHooks {
+		verifPoolPut(buf)
 	}
 	bp.xmitBuf.Put(buf[:cap(buf)]) // reset slice length to full capacity
 	return nil
